@@ -264,14 +264,20 @@ func (u *Upstream) WriteDataPoints(ctx context.Context, dataID *message.DataID, 
 		return errors.New("draining")
 	}
 
+	// The flush loop reads the group after this method has returned: it gets copies of the data id and of the slice
+	// of points, which belong to the caller and may be reused for the next write.
+	id := *dataID
+	points := make(DataPoints, len(dps))
+	copy(points, dps)
+
 	select {
 	case <-u.ctx.Done():
 		return errors.ErrStreamClosed
 	case <-ctx.Done():
 		return ctx.Err()
 	case u.dpgCh <- &DataPointGroup{
-		DataID:     dataID,
-		DataPoints: dps,
+		DataID:     &id,
+		DataPoints: points,
 	}:
 	}
 
